@@ -23,6 +23,14 @@ CHECKS = {
              'pre-query state, every nested query restored on its exhaustion path, dropped generators are finalised at once, and the re-run '
              'reproduces the fault-free answers. Worlds are sampled; fault placement per world is exhaustive.',
         note='Self-referential oracles only (no reference Prolog), so pure-semantics defects cannot raise alarms here. CPython refcount finalisation assumed; worlds that do not compile, build cyclic terms or exceed the line budget are discarded and counted.'),
+    'C07': dict(
+        category='exploration', design_ref='DESIGN.md section 4, C07',
+        technique='deterministic simulation: seeded operation histories (all routes and goal forms, retract abandoned/suspended at arbitrary points) against an ordered-list reference model with full read-back after every step',
+        text='Seeded histories of asserta/assertz/assert_fact/retract/retractall/clear/query over eight predicates (arities 0-3, two never asserted), '
+             'every op through a seeded route (API, compiled wrapper, compiled inline goal) and form (inline or bound variable); retract generators '
+             'are exhausted, abandoned after k answers by close or drop, or kept suspended while other predicates are changed. Each op result and, '
+             'after every op, the complete contents of all predicates are compared with a list model; any exception is a violation.',
+        note='Ground facts only and no same-predicate mutation during an enumeration (those are C13/C14), so every reading of the statement gives the same lists. Trusts the 60-line list model.'),
     'C18': dict(
         category='exploration', design_ref='DESIGN.md section 4, C18',
         technique='deterministic simulation of the environment: pool of fresh interpreters with seeded PYTHONHASHSEED, fake clock/pid and seeded compile histories; byte comparison',
@@ -45,7 +53,7 @@ NOT_APPLICABLE = [
 ]
 
 PENDING = {p: 'claimed in DESIGN.md; its check is not built yet at this commit (work in progress), so nothing is claimed for it here' for p in
-           ['C04', 'C07', 'C08', 'C13', 'C14', 'C15', 'C17', 'C20']}   # property id -> reason, for claimed-in-design properties whose check is not built yet
+           ['C04', 'C08', 'C13', 'C14', 'C15', 'C17', 'C20']}   # property id -> reason, for claimed-in-design properties whose check is not built yet
 
 
 def main():
